@@ -150,6 +150,16 @@ def op_model(rest):
         return "bad-op"
     desc = " ".join(rest[rest.index(";") + 1:]).split("|")
     S.update(mm=None, mx=None, d=None, fwd=None, step=None, dirty=False)
+    # every model brings its own traced functions: drop the compiled executables of the previous ones, otherwise a long
+    # session (thorough tier: hundreds of models) ends in "LLVM compilation error: Cannot allocate memory"
+    S["nmodels"] = S.get("nmodels", 0) + 1
+    if S["nmodels"] % 8 == 0:
+        try:
+            import gc
+            jax.clear_caches()
+            gc.collect()
+        except Exception:
+            pass
     try:
         mm, _ = mjbuild_py.compile_model(desc)
     except mjbuild_py.BuildError as e:
